@@ -75,6 +75,8 @@ class C16(Check):
                 for rf in ("tok", "repr", "dup"):
                     for s in ("-", "0", "1", "2", "4"):
                         qs.append("plain V%d %s %s" % (u, rf, s))
+                qs.append("plain V%d pad -" % u)
+                qs.append("plain V%d pad 2" % u)
                 qs.append("plain V%d num -" % u)
                 qs.append("plain V%d num same" % u)
             # a render function that reads the vertices; what it reads changes between renders
@@ -142,6 +144,8 @@ class C16(Check):
         pre_ = "r" if t[2] == "repr" else "v"
         if t[2] == "num":
             r = lambda x: str(code(x) * 5)  # noqa: E731
+        elif t[2] == "pad":
+            r = lambda x: "none" if x is None else ("v%d, ", "v%d ", "v%d\n\n")[real.vname(x) % 3] % real.vname(x)  # noqa: E731
         elif t[2] == "attr":
             r = lambda x: "none" if x is None else ("a%d" % real.valclass(x.a0) if hasattr(x, "a0") else "a-")  # noqa: E731
         elif t[2] == "dup":
@@ -169,7 +173,8 @@ class C16(Check):
             if key:
                 nbs = sorted(nbs, key=key)
             want.append(r(v) + " -> " + ", ".join(r(n) for n in nbs))
-        got = out[3:].split("|")
+        got = out[3:]
+        want = "\n".join(want).replace("\n", "|")          # (labels may contain line breaks themselves)
         if got != want:
             return "%s rendered %r, the statement gives %r" % (line, got, want)
         return None
